@@ -27,8 +27,10 @@ Model driver for the `mutex` line protocol (C15).  One operation per input line,
   tasks <tasks> | <controller>            -> fin          (tasks_deadlock_free/tasks_all_finish: the tasks model
         `MutexTasks.tsys`, both lock variants, run to the end by a lowest-first and a highest-first scheduler)
   ptasks <ptasks> | <controller>          -> fin lm=<map>;<map>;… | n/a
-        task sets submitted through the `pip:run` command: <ptasks> = `;`-separated `<waits>/<rlock list>/<wlock list>`
-        (a list = `-` or `,`-separated names).  The lock map of every task is `parseLocks` (the model of pipc.Run's
+        task sets submitted through the `pip:run` command: <ptasks> = `;`-separated
+        `<waits>/<rlock list>/<wlock list>[/<parent>[~<lock namespace>]]` (a list = `-` or `,`-separated names, `@name`
+        global; with the fourth field the command is the body of a parent task created with that lock namespace:
+        `nestedLocks`, Goat/Model/MutexNames.lean).  The lock map of every task is `parseLocks` (the model of pipc.Run's
         two `markBoolMapForNamespace` calls, wlock last) of its two lists in the empty namespace; printed per task
         (rows sorted by name, `<name>.<r|w>`); then as `tasks`.  n/a: a list the command refuses.
   tivs <waits>[f];… | <h>:<enter>:<exit>:<rows> … (or `-`: none)  -> accept | afterfailed <task> <prerequisite> | reject <i> <j> <name> | early <task> <prerequisite>
@@ -46,6 +48,7 @@ Names are ranked byte-wise (Go string order) to obtain the model's `Name`s.
 -/
 import Goat.Model.Mutex
 import Goat.Model.MutexTasks
+import Goat.Model.MutexNames
 open Goat Goat.Mutex
 
 /-! ### parsing -/
@@ -276,11 +279,12 @@ def runParties (maps : List LockMap) (nA nB : Nat) : String :=
 
 def parseInterval (t : String) : Option (Nat × Nat × Nat × List (String × Bool)) :=
   match t.splitOn ":" with
-  | [h, a, b, rows] => do
+  | h :: a :: b :: r :: rest => do
     let h ← h.toNat?
     let a ← a.toNat?
     let b ← b.toNat?
-    let m ← parseMap "," "." rows
+    -- a resource name may contain ':' (lock namespaces): the rows are everything after the third ':'
+    let m ← parseMap "," "." (":".intercalate (r :: rest))
     pure (h, a, b, m)
   | _ => none
 
@@ -348,12 +352,21 @@ def runTasksFin (tasks : List MutexTasks.Task) : String :=
 def bytesToString (b : Bytes) : String := String.ofList (b.map fun c => Char.ofNat c.toNat)
 
 def parsePTask (t : String) : Option (List Nat × List (String × Bool)) :=
+  let lst := fun (x : String) => if x = "-" then [] else Goat.str x
   match t.splitOn "/" with
   | [w, r, wl] => do
+    -- top level: pip:run in a scope without namespaces (the default: both empty)
     let ws ← if w = "-" || w = "" then some [] else (w.splitOn ",").mapM String.toNat?
-    let lst := fun (x : String) => if x = "-" then [] else Goat.str x
-    let m ← parseLocks [] (lst r) (lst wl)
+    let m ← runLocks ⟨[], []⟩ (lst r) (lst wl)
     pure (ws, m.map fun (k, v) => (bytesToString k, v))
+  | [w, r, wl, par] => do
+    -- nested: pip:run in the body of task <parent> created by a Pip with namespaces {"" <lock namespace>}
+    if !(w = "-" || w = "") then none
+    let (parent, ns) := match par.splitOn "~" with
+      | [p, n] => (p, n)
+      | _ => (par, "")
+    let m ← nestedLocks ⟨[], Goat.str ns⟩ (Goat.str parent) (lst r) (lst wl)
+    pure ([], m.map fun (k, v) => (bytesToString k, v))
   | _ => none
 
 def mapText (m : List (String × Bool)) : String :=
